@@ -66,7 +66,7 @@ func (ld *LineDiscount) IsEmpty() bool {
 func CleanLineDiscounts(lines []*LineDiscount) []*LineDiscount {
 	var cleaned []*LineDiscount
 	for _, d := range lines {
-		if d.IsEmpty() {
+		if d == nil || d.IsEmpty() {
 			continue
 		}
 		cleaned = append(cleaned, d)
